@@ -105,7 +105,12 @@ pub fn gen_program_focus(r: &mut Rng, with_double_claim: bool, focus: u8) -> Pro
                     1 => Step::SyncBroker,
                     2 => Step::Version,
                     3 | 4 => Step::Object { nsvc: r.below(3) as u32, explicit: r.bool(), cancel },
-                    5..=9 => Step::Call { server, func: *r.pick(&[FN_ECHO, FN_ECHO, FN_ERR, FN_INVALID_FUNCTION, FN_INVALID_ARGS, FN_ABORT, FN_DELAYED, FN_DELAYED]), cancel },
+                    5..=9 => {
+                        let func = *r.pick(&[FN_ECHO, FN_ECHO, FN_ERR, FN_INVALID_FUNCTION, FN_INVALID_ARGS, FN_ABORT, FN_DELAYED, FN_DELAYED, FN_WAIT_ABORT]);
+                        // a call the callee never answers is always given up by the caller
+                        let cancel = if func == FN_WAIT_ABORT { Some(cancel.unwrap_or(2 + r.below(5) as u32)) } else { cancel };
+                        Step::Call { server, func, cancel }
+                    }
                     10..=12 => Step::Events { server, event: r.below(3) as u32, count: 1 + r.below(4) as u32, all: r.chance(1, 3), unsubscribe: r.bool() },
                     13 => Step::DropProxy { server },
                     14..=16 => Step::Channel {
@@ -322,6 +327,8 @@ async fn app(env: Rc<Env>, me: usize, name: String, steps: Vec<Step>) {
                     None => pending.await,
                 };
                 let ok = match (func, &reply) {
+                    // answered before it was given up: only when the service went away
+                    (FN_WAIT_ABORT, Err(aldrin::Error::InvalidService | aldrin::Error::CallAborted)) => true,
                     (FN_ECHO | FN_DELAYED, Ok(r)) => matches!(r.deserialize::<u64, u64>(), Ok(Ok(n)) if n == nonce),
                     (FN_ERR, Ok(r)) => matches!(r.deserialize::<u64, u64>(), Ok(Err(n)) if n == nonce),
                     (FN_INVALID_FUNCTION, Err(aldrin::Error::InvalidFunction(_))) => true,
